@@ -1083,6 +1083,10 @@ func (e *Exec) unhandledPanic(gp *goPanic) {
 			sc.Where = fmt.Sprintf("%s at %s", describe(gp.val), gp.where)
 		}
 		e.popModel()
+		if r == "unknown" {
+			// paths entered through an undecided feasibility check are usually infeasible: ask the other solvers
+			r = e.portfolio(q)
+		}
 		var hits []*Scenario
 		for _, k := range e.knownConds {
 			if !h.knownActive[k.id] {
